@@ -1,6 +1,7 @@
 package dbdrv
 
 import (
+	"encoding/json"
 	"fmt"
 	"math/rand/v2"
 	"os"
@@ -11,6 +12,7 @@ import (
 	"testing"
 	"time"
 
+	"github.com/cockroachdb/errors"
 	"github.com/cockroachdb/pebble"
 	"github.com/cockroachdb/pebble/internal/manifest"
 	"github.com/cockroachdb/pebble/record"
@@ -410,6 +412,7 @@ func (c *crashCtl) reopenDump(clone *vfs.MemFS) (ev Ev) {
 		}
 	}()
 	r2 := NewRunner(c.r.U, c.r.Cfg, clone, c.r.Dir, c.r.T)
+	r2.Logger = c.r.Logger
 	if err := r2.Open(); err != nil {
 		ev["err"] = "open: " + err.Error()
 		return ev
@@ -484,11 +487,13 @@ type crashProfile struct {
 func crashProfiles() map[string]crashProfile {
 	return map[string]crashProfile{
 		"C10": {name: "C10", syncPct: 45, flushPct: 10, ingestPct: 6, excisePct: 3, compactPct: 6, bigPct: 6, reopenPct: 3, concPct: 8},
-		"C11": {name: "C11", syncPct: 25, flushPct: 8, ingestPct: 6, excisePct: 3, compactPct: 6, bigPct: 8, reopenPct: 5},
+		"C11": {name: "C11", syncPct: 25, flushPct: 8, ingestPct: 6, excisePct: 3, compactPct: 6, bigPct: 14, reopenPct: 5},
 		"C11F": {name: "C11F", syncPct: 25, flushPct: 4, ingestPct: 14, excisePct: 6, compactPct: 4, bigPct: 4, finding: true},
-		"C12": {name: "C12", syncPct: 0, flushPct: 22, ingestPct: 0, excisePct: 0, compactPct: 8, bigPct: 8, reopenPct: 3},
+		"C12": {name: "C12", syncPct: 0, flushPct: 20, ingestPct: 0, excisePct: 0, compactPct: 8, bigPct: 8, reopenPct: 3, concPct: 10},
 		"C13": {name: "C13", syncPct: 20, flushPct: 14, ingestPct: 5, excisePct: 2, compactPct: 6, bigPct: 6, flushOnly: true},
 		"C13F": {name: "C13F", syncPct: 20, flushPct: 6, ingestPct: 14, excisePct: 4, compactPct: 4, bigPct: 4, finding: true},
+		// CONC: mostly "two jobs at once" steps (a flush in the background while the client ingests)
+		"CONC": {name: "CONC", syncPct: 10, flushPct: 6, ingestPct: 0, excisePct: 0, compactPct: 6, bigPct: 6, reopenPct: 2, concPct: 45},
 		"C22": {name: "C22", syncPct: 0, flushPct: 22, ingestPct: 8, excisePct: 4, compactPct: 14, bigPct: 6, reopenPct: 3, concPct: 8},
 	}
 }
@@ -511,6 +516,7 @@ func runCrash(u Univ, cfg Config, cp crashProfile, seed uint64, steps int, path 
 		r = NewRunner(u, cfg, fs, "db", t)
 		r.Crash = c
 		c.r = r
+		r.Logger = crashLogger{}
 		return r.Open()
 	}
 	c.disabled = true // the initial Open of an empty directory is not interesting
@@ -591,9 +597,14 @@ func runCrash(u Univ, cfg Config, cp crashProfile, seed uint64, steps int, path 
 				} else if needDurable() {
 					makeDurable()
 				}
-				done, ferr := r.DB.AsyncFlush()
+				var done <-chan struct{}
+				var ferr error
+				r.BeforeIngest = func() { done, ferr = r.DB.AsyncFlush() }
 				tables, flat := g.ingestTables()
 				r.Exec(Ev{"op": "ingest", "tables": tables, "ops": flat})
+				if r.Fatal != nil {
+					return
+				}
 				g.track(flat)
 				winLen++
 				if ferr == nil {
@@ -722,7 +733,9 @@ func TestCrash(t *testing.T) {
 			t.Fatalf("unknown config %s", cn)
 		}
 		path := filepath.Join(out, fmt.Sprintf("K-%s-%d-%04d-%s.ndjson", cp.name, seed, i, cn))
-		ne, np, ks, ferr := runCrash(u, cfg, cp, seed*7919+uint64(i), steps, path, tune)
+		ne, np, ks, ferr := guardedCrash(path, func() (int, int, map[string]int, error) {
+			return runCrash(u, cfg, cp, seed*7919+uint64(i), steps, path, tune)
+		})
 		totalEv += ne
 		totalProbes += np
 		n++
@@ -773,6 +786,7 @@ func (c *crashCtl) readOnlyFiles(clone *vfs.MemFS, ev Ev) {
 		}
 	}()
 	r2 := NewRunner(c.r.U, c.r.Cfg, clone, c.r.Dir, c.r.T)
+	r2.Logger = c.r.Logger
 	r2.Opts = r2.MakeOptions()
 	r2.Opts.ReadOnly = true
 	db, err := pebble.Open(r2.Dir, r2.Opts)
@@ -784,4 +798,78 @@ func (c *crashCtl) readOnlyFiles(clone *vfs.MemFS, ev Ev) {
 	ev["hasfiles"] = true
 	ev["files"] = sstNums(db)
 	db.Close()
+}
+
+// crashFatal: the message of the first Logger.Fatalf of the store under test in the current script
+// (Pebble calls it for what it regards as corruption, e.g. a table or blob file the MANIFEST
+// names and the directory does not have).
+var crashFatal atomic.Pointer[string]
+
+// crashLogger parks the goroutine that hit a fatal condition (running its deferred unlocks is
+// not safe) and leaves the message for guardedCrash.
+type crashLogger struct{}
+
+func (crashLogger) Infof(string, ...interface{})  {}
+func (crashLogger) Errorf(string, ...interface{}) {}
+func (crashLogger) Fatalf(f string, a ...interface{}) {
+	msg := fmt.Sprintf("pebble fatal: "+f, a...)
+	crashFatal.CompareAndSwap(nil, &msg)
+	select {}
+}
+
+// guardedCrash runs one script; if the store died (Fatalf) the script's goroutine may never
+// return: it is abandoned after a grace period and a "fail" event is appended to the trace
+// file, which the specification rejects.
+func guardedCrash(path string, f func() (int, int, map[string]int, error)) (int, int, map[string]int, error) {
+	crashFatal.Store(nil)
+	type res struct {
+		ne, np int
+		ks     map[string]int
+		err    error
+	}
+	done := make(chan res, 1)
+	go func() {
+		ne, np, ks, err := f()
+		done <- res{ne, np, ks, err}
+	}()
+	tick := time.NewTicker(20 * time.Millisecond)
+	defer tick.Stop()
+	grace := 0
+	for {
+		select {
+		case r := <-done:
+			if m := crashFatal.Load(); m != nil {
+				appendFail(path, *m)
+				if r.err == nil {
+					r.err = errors.New(*m)
+				}
+			}
+			return r.ne, r.np, r.ks, r.err
+		case <-tick.C:
+			if m := crashFatal.Load(); m != nil {
+				if grace++; grace > 100 {
+					appendFail(path, *m)
+					return 0, 0, map[string]int{}, errors.New(*m)
+				}
+			}
+		}
+	}
+}
+
+func appendFail(path, msg string) {
+	// the abandoned script never flushed its buffered writer: drop a torn last line
+	if data, err := os.ReadFile(path); err == nil && len(data) > 0 && data[len(data)-1] != '\n' {
+		if i := strings.LastIndexByte(string(data), '\n'); i >= 0 {
+			os.Truncate(path, int64(i+1))
+		} else {
+			os.Truncate(path, 0)
+		}
+	}
+	fh, err := os.OpenFile(path, os.O_APPEND|os.O_WRONLY|os.O_CREATE, 0o644)
+	if err != nil {
+		return
+	}
+	defer fh.Close()
+	b, _ := json.Marshal(Ev{"op": "fail", "err": msg})
+	fh.Write(append(b, '\n'))
 }
